@@ -30,7 +30,7 @@ fn try_decrypt(bytes: &[u8], key: &SymmetricKey) -> Result<Option<Envelope>, cra
 
 pub fn run(ctx: &Ctx) -> i32 {
     let th = ctx.tier.thorough();
-    let mut trees = families::marked(if th { 6 } else { 5 }); // unique markers: the subject digest occurs at one position only
+    let mut trees = families::marked(if th { 7 } else { 6 }); // unique markers: the subject digest occurs at one position only
     trees.extend(families::decode_only().into_iter().take(2)); // nodes whose subject is a node
     let keys = [bind::key0(), bind::key1()];
     let nonces = [bind::nonce0(), bind::nonce1()];
@@ -67,7 +67,7 @@ pub fn run(ctx: &Ctx) -> i32 {
                         acc.inc("faults");
                         if let Ok(Ok(_)) = catch(|| enc.decrypt_subject(&keys[1 - ki])) { acc.viol("C08|wrong-key|decrypts", "decryption with another key succeeded", cid("wrong-key"), json!({"tree": m.show()})) }
                         // --- every single-bit flip of every field, re-wrapped through the public decoder
-                        if ti < full_bits_for && (th || (ki == 0 && ni == 0)) {
+                        if ti < full_bits_for && (ki == 0 || th) && (ni == 0 || th || ti % 4 == 0) {
                             let bytes = enc.to_cbor_data();
                             let v = grammar::parse_cbor(&bytes).expect("own parser reads library output");
                             let fields = ["ciphertext", "nonce", "auth", "aad"];
@@ -174,6 +174,6 @@ pub fn run(ctx: &Ctx) -> i32 {
     let cov = json!({"evaluations": evals,
         "rule": "pristine: every tree x 2 keys x 2 nonces x {encrypt_subject, encrypt, elide-with-Encrypt}; faults: wrong key, EVERY single-bit flip of ciphertext / nonce / tag / AAD re-wrapped through the decoder, field swaps, AAD removed; forgeries: every ordered pair (plaintext X, declared digest of Y) bare and as node subject; distinct = (tree, key, nonce) and (X, Y) pairs",
         "exhaustive": true,
-        "bounds": {"tree_weight": if th { 6 } else { 5 }, "bit_flip_key_nonce_pairs": if th { 4 } else { 1 }, "forgery_family": fam.len()}});
+        "bounds": {"tree_weight": if th { 7 } else { 6 }, "bit_flip_key_nonce_pairs": if th { 4 } else { 1 }, "forgery_family": fam.len()}});
     finish(ctx, acc, "fault_enumeration", cov, vec!["keys are data values: 'no other key' means no other key of the finite key set".into(), "AEAD strength is exercised, not analysed".into()])
 }
